@@ -20,9 +20,13 @@ pub const SHADOW_NAMES: [&str; 3] = ["len", "str::from", "math::abs"];
 pub const VAR_NAMES: [&str; 3] = ["a", "b", "c"];
 /// further variable names used now and then (case variants, longer names)
 /// (case variants, a dotted and a namespaced name, a builtin's name, two spellings of a number)
-pub const EXTRA_VAR_NAMES: [&str; 10] = [
+pub const EXTRA_VAR_NAMES: [&str; 13] = [
     "A", "B", "C", "ab", "a_1", "a.b", "max", "ns::x", "x1", "x01",
+    // identifiers next to the tokenizer's literal syntax
+    "_1", "_", "e1",
 ];
+/// names only the API can bind (an expression cannot spell them): surrounding whitespace, empty
+pub const API_ONLY_NAMES: [&str; 4] = [" a", "a ", "b\n", ""];
 /// an identifier longer than 64 bytes that is never bound (variable) / never registered (function)
 pub const LONG_UNBOUND_NAME: &str =
     "a_rather_long_identifier_that_nobody_ever_bound_to_anything_at_all_0123456789";
@@ -82,13 +86,34 @@ pub fn injected_error(index: usize) -> E {
 /// (`arg.as_tuple()?`, `arg.as_string()?`, ...) and a not-found error of its own (a dispatcher
 /// that does not know the plugin it was asked for).
 pub fn injected_call_error(index: usize, arg: &V) -> E {
-    match index % 9 {
+    match index % 10 {
         2 => EvalexprError::expected_tuple(arg.clone()),
         6 => EvalexprError::expected_string(arg.clone()),
         7 => EvalexprError::expected_boolean(arg.clone()),
         8 => EvalexprError::FunctionIdentifierNotFound(format!("injected@{}", index)),
+        // a function that itself tried to assign through a shared reference to some context
+        9 => EvalexprError::ContextNotMutable,
         _ => injected_error(index),
     }
+}
+
+/// Message prefix of a panic injected at a function call (a user function that panics for this
+/// call instead of returning an error). The unwind passes through the library's frames; whatever
+/// was done before stays done, nothing after it happens, and every entry point lets it through.
+pub const INJECTED_PANIC: &str = "injected panic@";
+
+/// Whether the failed function call at seam index `index` with argument `arg` is a panic.
+pub fn call_fault_panics(index: usize, arg: &V) -> bool {
+    (index as u64).wrapping_add(hash_str(&cv(arg))) % 4 == 3
+}
+
+/// Fails the function call at `index`: an error, or (if `panics`) possibly a panic. Must be called
+/// with the recorder released (a panic while it is locked would poison it).
+pub fn fail_call(index: usize, arg: &V, panics: bool) -> E {
+    if panics && call_fault_panics(index, arg) {
+        panic!("{}{}", INJECTED_PANIC, index);
+    }
+    injected_call_error(index, arg)
 }
 
 #[derive(Clone, Copy, Debug, PartialEq, Eq, Hash)]
@@ -192,6 +217,8 @@ pub struct Recorder {
     pub enabled: bool,
     /// the evaluation made more than SEAM_CALL_BUDGET seam calls
     pub over_budget: bool,
+    /// a failed function call may be a panic of the user function instead of an error
+    pub panic_faults: bool,
 }
 
 /// No evaluation of a generated program comes near this many seam calls; a library that needs more
@@ -258,15 +285,17 @@ pub fn recording_function(
 ) -> Function<DefaultNumericTypes> {
     Function::new(move |arg: &V| {
         stop_if_huge(arg);
-        {
+        let fault = {
             let mut r = rec.lock().unwrap();
             if r.enabled && r.closures_record {
-                if let Some(idx) =
-                    r.record(Ev::Call(name.clone(), cv(arg)), FaultKind::CallError)
-                {
-                    return Err(injected_call_error(idx, arg));
-                }
+                let panics = r.panic_faults;
+                r.record(Ev::Call(name.clone(), cv(arg)), FaultKind::CallError).map(|idx| (idx, panics))
+            } else {
+                None
             }
+        };
+        if let Some((idx, panics)) = fault {
+            return Err(fail_call(idx, arg, panics));
         }
         stop_if_over_budget(&rec);
         Ok(sentinel(behaviour, arg))
@@ -300,13 +329,17 @@ pub fn counter_function(name: String, rec: Option<Rec>) -> Function<DefaultNumer
     let state = CloneByValueCounter(std::sync::atomic::AtomicI64::new(0));
     Function::new(move |arg: &V| {
         if let Some(rec) = &rec {
-            let mut r = rec.lock().unwrap();
-            if r.enabled && r.closures_record {
-                if let Some(idx) =
-                    r.record(Ev::Call(name.clone(), cv(arg)), FaultKind::CallError)
-                {
-                    return Err(injected_call_error(idx, arg));
+            let fault = {
+                let mut r = rec.lock().unwrap();
+                if r.enabled && r.closures_record {
+                    let panics = r.panic_faults;
+                    r.record(Ev::Call(name.clone(), cv(arg)), FaultKind::CallError).map(|idx| (idx, panics))
+                } else {
+                    None
                 }
+            };
+            if let Some((idx, panics)) = fault {
+                return Err(fail_call(idx, arg, panics));
             }
         }
         if let Some(rec) = &rec {
@@ -410,7 +443,9 @@ impl Setup {
                         std::mem::take(&mut r.faults),
                         r.enabled,
                         r.closures_record,
+                        r.panic_faults,
                     );
+                    r.panic_faults = false;
                     r.faults = (0..self.aging).collect();
                     r.enabled = true;
                     r.closures_record = true;
@@ -425,6 +460,7 @@ impl Setup {
                 r.faults = saved.1;
                 r.enabled = saved.2;
                 r.closures_record = saved.3;
+                r.panic_faults = saved.4;
                 r.fired.clear();
             }
         }
@@ -457,16 +493,18 @@ impl Context for SimContext {
 
     fn call_function(&self, identifier: &str, argument: &V) -> R {
         stop_if_huge(argument);
-        {
+        let fault = {
             let mut r = self.rec.lock().unwrap();
             if r.enabled {
-                if let Some(idx) = r.record(
-                    Ev::Call(identifier.to_string(), cv(argument)),
-                    FaultKind::CallError,
-                ) {
-                    return Err(injected_call_error(idx, argument));
-                }
+                let panics = r.panic_faults;
+                r.record(Ev::Call(identifier.to_string(), cv(argument)), FaultKind::CallError)
+                    .map(|idx| (idx, panics))
+            } else {
+                None
             }
+        };
+        if let Some((idx, panics)) = fault {
+            return Err(fail_call(idx, argument, panics));
         }
         stop_if_over_budget(&self.rec);
         self.inner.call_function(identifier, argument)
@@ -592,6 +630,9 @@ pub fn install_quiet_panic_hook() {
             .map(|l| format!(" at {}:{}", l.file(), l.line()))
             .unwrap_or_default();
         // (try_with: the hook may run while the thread's thread-locals are being destroyed)
+        if std::env::var_os("VERIF_LOUD_PANICS").is_some() {
+            eprintln!("panic: {}{}\n{}", msg, loc, std::backtrace::Backtrace::force_capture());
+        }
         let _ = LAST_PANIC.try_with(|p| *p.borrow_mut() = format!("{}{}", msg, loc));
     }));
 }
@@ -606,7 +647,16 @@ pub fn last_panic() -> String {
 pub fn guarded<F: FnOnce() -> R>(f: F) -> (String, bool) {
     match catch_unwind(AssertUnwindSafe(f)) {
         Ok(r) => (cr(&r), false),
-        Err(_) => (format!("PANIC: {}", last_panic()), true),
+        Err(_) => {
+            let msg = last_panic();
+            if msg.starts_with(INJECTED_PANIC) {
+                // the environment's own doing, not the library's: an outcome like any other
+                let msg = msg.split(" at ").next().unwrap_or("").to_string();
+                (format!("PANIC: {}", msg), false)
+            } else {
+                (format!("PANIC: {}", msg), true)
+            }
+        },
     }
 }
 
@@ -717,6 +767,7 @@ pub fn run_real(
         closures_record: kind == CtxKind::Bare,
         enabled: false,
         over_budget: false,
+        panic_faults: true,
     }));
     let entry = if src.is_none() { Entry::Tree } else { entry };
     let enable = |on: bool| rec.lock().unwrap().enabled = on;
